@@ -12,6 +12,21 @@ def shorten(s, N=80):
         return '{} ... {}'.format(s[:l], s[-l:])
 
 
+re_fortran_float = re.compile(r'^([-+]?(?:[0-9]+\.?[0-9]*|\.[0-9]+))([-+][0-9]+)$')
+
+
+def to_float(token):
+    """
+    Convert a number in any of the spellings that MCNP accepts (Fortran
+    exponents included: ``1.5d0``, ``1.5+0``) to a float.
+    """
+    text = token.strip().lower().replace('d', 'e')
+    match = re_fortran_float.match(text)
+    if match:
+        text = match.group(1) + 'e' + match.group(2)
+    return float(text)
+
+
 def newlineindex(mlstring, start=0):
     """
     Return two indices, for the end of the 1-st line and start of the next one.
